@@ -93,27 +93,55 @@ func checkC12(ck *Check) {
 					ctx = ck.P.NewCtx(fn)
 				}
 				arg := ctx.Term(ci.Common().Args[0])
-				okv := arg.Kind == "field" && arg.Obj == fCloud
-				why := ""
-				if okv {
+				var judge func(fn *ssa.Function, blk *ssa.BasicBlock, arg *Term, depth int) (bool, string)
+				judge = func(fn *ssa.Function, blk *ssa.BasicBlock, arg *Term, depth int) (bool, string) {
+					// a name handed in by the callers: judged at every call site
+					if prm, isParam := arg.Val.(*ssa.Parameter); isParam && arg.Kind == "param" && depth < 3 && prm.Parent() == fn {
+						idx := -1
+						for i, q := range fn.Params {
+							if q == prm {
+								idx = i
+							}
+						}
+						sites := 0
+						for _, cf := range ck.P.callers[fn] {
+							cs := callsTo(cf, fn)
+							if len(cs) == 0 {
+								return false, "the name is a parameter of a function that is also entered dynamically"
+							}
+							cctx := ck.P.NewCtx(cf)
+							for _, c := range cs {
+								sites++
+								if idx < 0 || idx >= len(c.Common().Args) {
+									return false, "the looked-up name is not a cloud_provider_group_name option"
+								}
+								if okv, why := judge(cf, c.Block(), cctx.Term(c.Common().Args[idx]), depth+1); !okv {
+									return false, why
+								}
+							}
+						}
+						if sites > 0 {
+							return true, ""
+						}
+					}
+					if !(arg.Kind == "field" && arg.Obj == fCloud) {
+						return false, "the looked-up name is not a cloud_provider_group_name option"
+					}
 					base := arg.Args[0]
 					if g := ck.groupTerm(fn); g != nil && fn != a.RunOnce && fn != a.NewController {
 						want := ck.optTerm(g, "cloud_provider_group_name")
 						if want == nil || arg.Key() != want.Key() {
-							okv = false
-							why = "not the scanned group's own options: " + base.String()
+							return false, "not the scanned group's own options: " + base.String()
 						}
-					} else {
-						// loop element of the configured groups
-						l := innermostLoop(fn, ci.Block())
-						if l == nil || l.IdxPhi == nil {
-							okv = false
-							why = "lookup outside a loop over the configured groups"
-						}
+						return true, ""
 					}
-				} else {
-					why = "the looked-up name is not a cloud_provider_group_name option"
+					// loop element of the configured groups
+					if l := innermostLoop(fn, blk); l == nil || l.IdxPhi == nil {
+						return false, "lookup outside a loop over the configured groups"
+					}
+					return true, ""
 				}
+				okv, why := judge(fn, ci.Block(), arg, 0)
 				ck.cond(okv, "C12.R2", ck.P.siteKey(ci), ck.P.instrPos(ci), funcID(fn), "the cloud group is looked up by the current group's own cloud_provider_group_name", arg.String(), why)
 			}
 		}
@@ -255,43 +283,32 @@ func (ck *Check) listerWiring(rule string) {
 			continue
 		}
 		k, v := mkField(paramTerm(ng), fKey), mkField(paramTerm(ng), fVal)
+		// the filters that end up in the listers — NewFilteredPodsLister(all, podFilter),
+		// NewFilteredNodesLister(all, nodeFilter) in the constructor or a helper it shares with its
+		// sibling (parameters bound) — are built from the group's own label pair
 		nodeOK, podOK := false, false
-		for _, ci := range callsIn(ctor, nil) {
-			f := ci.Common().StaticCallee()
-			if f == nil {
-				continue
-			}
-			c, _ := ci.(*ssa.Call)
-			switch f.Name() {
-			case "NewNodeLabelFilterFunc":
-				if ctx.Term(c.Common().Args[0]).Key() == k.Key() && ctx.Term(c.Common().Args[1]).Key() == v.Key() {
-					nodeOK = true
-				}
-			case "NewPodAffinityFilterFunc":
-				if ctor == newLister && ctx.Term(c.Common().Args[0]).Key() == k.Key() && ctx.Term(c.Common().Args[1]).Key() == v.Key() {
-					podOK = true
-				}
-			case "NewPodDefaultFilterFunc":
-				if ctor == newDefault {
-					podOK = true
-				}
-			}
-		}
-		// and the filters end up in the lister: NewFilteredPodsLister(all, podFilter), NewFilteredNodesLister(all, nodeFilter)
 		wired := 0
-		for _, ci := range callsIn(ctor, nil) {
+		_ = ctx
+		for _, bc := range ck.bodyCalls(ctor, func(ci ssa.CallInstruction) bool {
 			f := ci.Common().StaticCallee()
-			if f == nil {
+			return f != nil && (f.Name() == "NewFilteredPodsLister" || f.Name() == "NewFilteredNodesLister") && len(ci.Common().Args) == 2
+		}) {
+			f := bc.Call.Common().StaticCallee()
+			arg := bc.Ctx.Term(bc.Call.Common().Args[1])
+			if arg.Kind != "call" {
 				continue
 			}
-			if f.Name() == "NewFilteredPodsLister" || f.Name() == "NewFilteredNodesLister" {
-				arg := ctx.Term(ci.Common().Args[1])
-				wantFilter := map[string][]string{"NewFilteredPodsLister": {"NewPodAffinityFilterFunc", "NewPodDefaultFilterFunc"}, "NewFilteredNodesLister": {"NewNodeLabelFilterFunc"}}[f.Name()]
-				for _, w := range wantFilter {
-					if arg.Kind == "call" && strings.HasSuffix(arg.Name, w) {
-						wired++
-					}
-				}
+			ownPair := len(arg.Args) == 2 && arg.Args[0].Key() == k.Key() && arg.Args[1].Key() == v.Key()
+			switch {
+			case f.Name() == "NewFilteredNodesLister" && strings.HasSuffix(arg.Name, "NewNodeLabelFilterFunc"):
+				wired++
+				nodeOK = nodeOK || ownPair
+			case f.Name() == "NewFilteredPodsLister" && strings.HasSuffix(arg.Name, "NewPodAffinityFilterFunc"):
+				wired++
+				podOK = podOK || (ctor == newLister && ownPair)
+			case f.Name() == "NewFilteredPodsLister" && strings.HasSuffix(arg.Name, "NewPodDefaultFilterFunc"):
+				wired++
+				podOK = podOK || ctor == newDefault
 			}
 		}
 		ck.cond(nodeOK && podOK && wired == 2, rule, funcID(ctor)+"/filters", ck.P.position(ctor.Pos()), funcID(ctor), "node filter = label filter on the group's own (label_key, label_value); pod filter = affinity filter on the same pair (or the default filter)", fmt.Sprintf("node %v pod %v wired %d", nodeOK, podOK, wired), "a group lists another group's nodes or pods")
